@@ -27,6 +27,9 @@ type FailCase struct {
 	Tasks   []FTask  `json:"tasks"`
 	Request []string `json:"request"`
 	Flags   []string `json:"flags"`
+	// Prime: first run the request once with the failures disarmed, so that every task has a
+	// recorded success before the failing run (the failure then hits a populated cache).
+	Prime bool `json:"prime,omitempty"`
 }
 
 var failNames = []string{"alpha", "bravo", "charlie", "delta"}
@@ -65,6 +68,7 @@ func genFail(t *rapid.T) FailCase {
 	k := rapid.IntRange(1, n).Draw(t, "nreq")
 	c.Request = append([]string(nil), perm[:k]...)
 	c.Flags = rapid.SampledFrom(failFlagSets).Draw(t, "flags")
+	c.Prime = rapid.Bool().Draw(t, "prime")
 	return c
 }
 
@@ -83,7 +87,7 @@ func (c FailCase) source() string {
 			if st == 0 {
 				fmt.Fprintf(&b, "    echo %s >> $LOG\n", marker(ti, ci))
 			} else {
-				fmt.Fprintf(&b, "    echo %s >> $LOG; exit %d\n", marker(ti, ci), st)
+				fmt.Fprintf(&b, "    echo %s >> $LOG; [ -z \"$ARMED\" ] || exit %d\n", marker(ti, ci), st)
 			}
 		}
 		b.WriteString("}\n\n")
@@ -120,6 +124,14 @@ func execFail(s *ev.Shard, b *sandbox.Box, c FailCase) *rp.Fail {
 		size += len(t.Cmds)
 	}
 	args := append(append([]string(nil), c.Flags...), c.Request...)
+	if c.Prime {
+		// every command succeeds while the failures are disarmed
+		if r0 := b.Run(b.Proj, env, runTimeout, c.Request...); r0.Exit != 0 {
+			return &rp.Fail{Sig: "harness", Msg: "priming run failed: " + sandbox.Strip(r0.Stderr)}
+		}
+		_ = os.Remove(logPath)
+	}
+	env = append(env, "ARMED=1")
 	r1 := b.Run(b.Proj, env, runTimeout, args...)
 	if r1.TimedOut {
 		return &rp.Fail{Sig: "harness", Msg: "spok timed out"}
@@ -127,6 +139,9 @@ func execFail(s *ev.Shard, b *sandbox.Box, c FailCase) *rp.Fail {
 	log1 := readLog(logPath)
 	F := c.failedTasks(log1)
 	desc := fmt.Sprintf("spokfile:\n%s`spok %s`", src, strings.Join(args, " "))
+	if c.Prime {
+		desc = fmt.Sprintf("spokfile:\n%s(after a first run of %v in which every command succeeded) `spok %s`", src, c.Request, strings.Join(args, " "))
+	}
 	stderr1 := sandbox.Strip(r1.Stderr)
 	if len(F) > 0 {
 		if r1.Exit == 0 {
@@ -176,7 +191,7 @@ func execFail(s *ev.Shard, b *sandbox.Box, c FailCase) *rp.Fail {
 			}
 		}
 		if nt && len(F) > 0 {
-			s.NonTrivial(src + strings.Join(args, " "))
+			s.NonTrivial(src + strings.Join(args, " ") + fmt.Sprint(c.Prime))
 		}
 		if len(F) == 0 {
 			s.Class("failing_command_not_reached")
@@ -184,6 +199,9 @@ func execFail(s *ev.Shard, b *sandbox.Box, c FailCase) *rp.Fail {
 			s.Class("failure_observed")
 		}
 		s.Class("flags_" + strings.Join(c.Flags, ""))
+		if c.Prime {
+			s.Class("failure_on_populated_cache")
+		}
 	}
 	return nil
 }
